@@ -23,7 +23,7 @@ RULE = ('kernel cases: C02/C04 generators plus near-axis meridional inputs (x=L=
         'media, finite/infinite object, EPD/imageFNO/objectNA, angle/object_height fields, stop anywhere); '
         '(a) M_C05.mtrace/mlaunch (FOps) vs Optic.trace_generic on meridional rays at eps in {1,0.3,1e-2,1e-4}; '
         '(b) the property itself: eps = 1e-1..1e-4 (7 values), marginal-type (Hy=0,Py=eps) and chief-type (Hy=eps,Py=0) rays, '
-        'fitted order of |real/scale - paraxial| >= 1.9 at every surface for height and tangent, axial focus -> paraxial, '
+        'fitted order (asymptotic tail: the four smallest eps above the noise floor, else the whole range) of |real/scale - paraxial| >= 1.9 at every surface for height and tangent, axial focus -> paraxial, '
         'zero-pupil ray -> stop centre, Paraxial.trace(Hy,Py) vs the real ray. For angle fields the field scale factor is '
         'tan(eps*theta)/tan(theta) (the paraxial chief ray is linear in the tangent). non-trivial = distinct lens with a '
         'finite focal length whose eps=0.1 error is above the noise floor')
@@ -142,7 +142,14 @@ def _order_ok(es, errs, ref):
     above = [(e, v) for e, v in pts if v > floor]
     if len(above) < 3:
         return True, None, 'at noise floor'
-    order = _slope([e for e, _ in above], [v for _, v in above])
+    # the property is about eps -> 0: the order is fitted on the asymptotic tail (the four smallest eps whose
+    # error is above the noise floor).  A nearly afocal lens (paraxial focus at 5e4) has a relative error of
+    # order one at eps = 0.1, far outside the quadratic regime, and a fit over the whole range reads 1.896.
+    above.sort()
+    tail = above[:4]
+    order = _slope([e for e, _ in tail], [v for _, v in tail])
+    if order < ORDER_MIN and len(above) > 4:
+        order = max(order, _slope([e for e, _ in above], [v for _, v in above]))
     return (order >= ORDER_MIN), order, ''
 
 
@@ -416,7 +423,7 @@ def search(ctx, broken, disagreements):
     viol, hist, _ = _oracle_sweep(ctx, ctx.n(60, 800), 77)
     known = []
     for v in viol:
-        if not any(matches_finding(v, f) for f in _FINDINGS):
+        if not any(matches_finding(v, f) for f in _open_findings()):
             return v
         known.append(v)
     return known[:1] or None
@@ -425,7 +432,14 @@ def search(ctx, broken, disagreements):
 # ----------------------------------------------------------------------------------------------
 # known findings
 # ----------------------------------------------------------------------------------------------
-_FINDINGS = [{'id': 'even-asphere-r2-ignored'}, {'id': 'object-height-sign'}, {'id': 'paraxial-trace-finite-angle'}]
+def _open_ids():
+    import vlib
+    return {f['id'] for f in vlib.load_known_findings(PROP)}
+
+
+def _open_findings():
+    import vlib
+    return vlib.load_known_findings(PROP)
 
 
 def _has_r2_asphere(spec):
@@ -470,8 +484,10 @@ def matches_finding(w, f):
         if i is None:
             return False
         ids.append(i)
-    if f['id'] == 'object-height-sign':
-        return 'object-height-sign' in ids or (set(ids) == {'object-height-sign-or-ok'})
+    ids = ['object-height-sign' if i == 'object-height-sign-or-ok' else i for i in ids]
+    # every complaint must be explained by a finding that is still OPEN (a repaired defect that comes back alarms)
+    if any(i not in _open_ids() for i in ids):
+        return False
     return f['id'] in ids
 
 
